@@ -771,6 +771,14 @@ def run(prop, tier, seed):
             run_.cov["read_fault_schedules"] = len(rjobs)
         elif prop == "C15":
             scns = scenarios_for(prop, rng, n)
+            # a Prereq: word that the file does not hold (and one that it does), with and without -f / -t: the question the real
+            # run would ask is part of the outcome the dry run predicts
+            for _ in range(n // 8):
+                sec = scen.section(rng, rng.choice(["pq", "pd/pq"]), kind="change", fmt=rng.choice(["unified", "context"]), nonl=False)
+                s0 = scen.base_scenario(rng, [sec], opts=dict(rng.choice([{"dry": 1}, {"dry": 1}, {"dry": 1, "f": 1}, {"dry": 1, "t": 1}, {"dry": 1, "N": 1}])))
+                word = rng.choice([b"no-such-version-string", b"no-such-version-string", (sec["a"][0][0].split() or ["zz"])[0].encode("latin-1")])
+                k_, m_, d_ = s0["tree"]["p.diff"]; s0["tree"]["p.diff"] = (k_, m_, b"Prereq: " + word + b"\n" + d_)
+                scns.append(s0)
             res, b2, m2 = l2_family(run_, exe, scns, judge_dry, cls=lambda s, r: "dry exit %d" % r["exit"], with_mtime=True)
             bad += b2; mism += m2
             # the same invocation without --dry-run on the same initial state
@@ -898,6 +906,30 @@ def run(prop, tier, seed):
         elif prop == "C17":
             scns = scenarios_for(prop, rng, n)
             _, b2, m2 = l2_family(run_, exe, scns, judge_c17, cls=lambda s, r: "modes exit %d" % r["exit"])
+            # -R of a git rename or copy without mode header, the file under its new name having a mode of its own: the file that
+            # comes back under the old name has that mode
+            rv = []
+            for _ in range(n // 6):
+                sec = scen.section(rng, rng.choice(["rm", "rd/rm"]), kind="rename", fmt="git", nonl=False)
+                if rng.random() < 0.4:
+                    sec = dict(sec, hs=[], b=sec["a"], text=emit.emit_git(sec["path"], sec["newpath"], [], kind="rename"))
+                md = rng.choice([0o755, 0o600, 0o750, 0o444, 0o640, 0o711])
+                s0 = scen.base_scenario(rng, [sec], opts={"R": 1})
+                tr = {p_: v_ for p_, v_ in s0["tree"].items() if p_ != sec["path"]}
+                scen.add_parents(tr, sec["newpath"]); tr[sec["newpath"]] = ("R", md, emit.file_bytes(sec["b"]))
+                s0["tree"] = tr; s0["md"] = md
+                rv.append(s0)
+            def judge_rv(s, r):
+                x = s["secs"][0]; a_ = tree_no_meta(r["tree"]).get(x["path"])
+                if r["exit"] != 0:
+                    return None
+                if a_ is None or a_[2] != emit.file_bytes(x["a"]):
+                    return None      # (what -R restores is C05's business)
+                if a_[1] != s["md"]:
+                    return "-R of a git rename: %s had mode %o, %s comes back with mode %o" % (x["newpath"], s["md"], x["path"], a_[1])
+                return None
+            _, b8, m8 = l2_family(run_, exe, rv, judge_rv, cls=lambda s, r: "-R rename exit %d" % r["exit"])
+            bad += b8; mism += m8
             rs = refusal_scenarios(rng, n // 3)
             _, b3, m3 = l2_family(run_, exe, rs, judge_refusal, cls=lambda s, r: "refusal " + s["refusal"])
             bad += b2 + b3; mism += m2 + m3
